@@ -40,6 +40,9 @@ func send(w io.Writer, packet *parser.Packet) error {
 }
 
 // limit is the maximum length of a packet. 0 means that there is no limit.
+// Up to this length a frame's buffer is allocated at once, also when no limit is configured.
+const maxUpfrontLen = 1 << 20
+
 func nextPacket(r io.Reader, limit int64) (*parser.Packet, error) {
 	var firstByte [1]byte
 	_, err := io.ReadFull(r, firstByte[:])
@@ -91,6 +94,16 @@ func nextPacket(r io.Reader, limit int64) (*parser.Packet, error) {
 		case ReadPayload:
 			if expectedLen < 0 || (limit > 0 && int64(expectedLen) > limit) {
 				return nil, ErrLimitReached
+			}
+			if limit <= 0 && expectedLen > maxUpfrontLen {
+				// Without a limit, a declared length is not trusted with an allocation of its size
+				// (2^63-1 would even panic): the frame is read as it arrives, and it has to arrive in full.
+				lr := &io.LimitedReader{R: r, N: int64(expectedLen)}
+				packet, err := parser.Decode(lr, isBinary)
+				if lr.N > 0 {
+					return nil, io.ErrUnexpectedEOF
+				}
+				return packet, err
 			}
 			return parser.DecodeWithLen(r, isBinary, expectedLen)
 		}
